@@ -138,38 +138,47 @@ DoInputImplementation(AbstractGatewayMessageReceiver & receiver, uint32 maxBytes
       {
          // Minimum-chunk-size mode:  we read bytes directly into the Message's data field until it is full, then
          // forward that message on to the user code and start the next.  Advantage of this is:  no data-copying necessary!
-         if (_recvMsgRef() == NULL)
+         io_status_t totalBytesRead;
+         while(true)
          {
-            MessageRef newMsg = GetMessageFromPool(PR_COMMAND_RAW_DATA);
-            MRETURN_ON_ERROR(newMsg);
-            MRETURN_ON_ERROR(newMsg()->AddData(        PR_NAME_DATA_CHUNKS, B_RAW_TYPE, NULL,      _minChunkSize));
-
-            uint32 temp = 0;
-            MRETURN_ON_ERROR(newMsg()->FindDataPointer(PR_NAME_DATA_CHUNKS, B_RAW_TYPE, &_recvBuf, &temp));
-            _recvBufLength = temp;
-
-            _recvBufByteOffset = 0;
-            _recvMsgRef        = std_move_if_available(newMsg);
-         }
-
-         const io_status_t bytesRead = GetDataIO()() ? GetDataIO()()->Read(&((char*)_recvBuf)[_recvBufByteOffset], muscleMin(maxBytes, (uint32)(_recvBufLength-_recvBufByteOffset))) : io_status_t(B_BAD_OBJECT);
-         MRETURN_ON_ERROR(bytesRead);
-
-         if (bytesRead.GetByteCount() > 0)
-         {
-            if ((GetReceiveTimestampingEnabled())&&(_recvBufByteOffset == 0)) MRETURN_ON_ERROR(_recvMsgRef()->AddInt64(PR_NAME_DATA_TIMESTAMP, GetRunTime64()));
-
-            _recvBufByteOffset += bytesRead.GetByteCount();
-            if (_recvBufByteOffset == _recvBufLength)
+            if (_recvMsgRef() == NULL)
             {
-               // This buffer is full... forward it on to the user, and start receiving the next one.
-               CallMessageReceivedFromGateway(receiver, _recvMsgRef);
-               _recvMsgRef.Reset();
+               MessageRef newMsg = GetMessageFromPool(PR_COMMAND_RAW_DATA);
+               MRETURN_ON_ERROR(newMsg);
+               MRETURN_ON_ERROR(newMsg()->AddData(        PR_NAME_DATA_CHUNKS, B_RAW_TYPE, NULL,      _minChunkSize));
 
-               return bytesRead+(IsSuggestedTimeSliceExpired() ? io_status_t() : DoInputImplementation(receiver, maxBytes-bytesRead.GetByteCount()));
+               uint32 temp = 0;
+               MRETURN_ON_ERROR(newMsg()->FindDataPointer(PR_NAME_DATA_CHUNKS, B_RAW_TYPE, &_recvBuf, &temp));
+               _recvBufLength = temp;
+
+               _recvBufByteOffset = 0;
+               _recvMsgRef        = std_move_if_available(newMsg);
             }
+
+            const io_status_t bytesRead = GetDataIO()() ? GetDataIO()()->Read(&((char*)_recvBuf)[_recvBufByteOffset], muscleMin(maxBytes, (uint32)(_recvBufLength-_recvBufByteOffset))) : io_status_t(B_BAD_OBJECT);
+            MRETURN_ON_ERROR(bytesRead);
+            totalBytesRead += bytesRead;
+
+            if (bytesRead.GetByteCount() > 0)
+            {
+               if ((GetReceiveTimestampingEnabled())&&(_recvBufByteOffset == 0)) MRETURN_ON_ERROR(_recvMsgRef()->AddInt64(PR_NAME_DATA_TIMESTAMP, GetRunTime64()));
+
+               _recvBufByteOffset += bytesRead.GetByteCount();
+               if (_recvBufByteOffset == _recvBufLength)
+               {
+                  // This buffer is full... forward it on to the user, and start receiving the next one.
+                  CallMessageReceivedFromGateway(receiver, _recvMsgRef);
+                  _recvMsgRef.Reset();
+
+                  if (IsSuggestedTimeSliceExpired() == false)
+                  {
+                     maxBytes -= bytesRead.GetByteCount();
+                     continue;  // note:  don't recurse here!  With a small chunk size and a lot of readable data we would overflow the stack
+                  }
+               }
+            }
+            return totalBytesRead;
          }
-         return bytesRead;
       }
       else
       {
